@@ -222,6 +222,7 @@ class Roles:
     def optimum_updater(self) -> FuncInfo:
         def build():
             ws = [self.lift(m.func) for m in self.attr_writers('best', self.method_cls)]
+            ws = self._on_search_path(ws)
             return self._unique('optimum updater', ws, 'stores Method.best outside the constructor')
         return self.memo('optimum_updater', build)
 
@@ -260,6 +261,7 @@ class Roles:
     def estimate_writer(self) -> FuncInfo:
         def build():
             ws = [self.lift(m.func) for m in self.sub_writers(self.method_cls, 'M') if m.func.name != '__init__']
+            ws = self._on_search_path(ws)
             return self._unique('estimate writer', ws, 'subscript-stores into Method.M outside the constructor')
         return self.memo('estimate_writer', build)
 
@@ -361,6 +363,34 @@ class Roles:
                             key_of(ce.d['result']) == key_of(x):
                         out += [c for c in ce.d['callees'] if isinstance(c, FuncInfo) and len(c.param_names) >= 2]
         return sorted(set(out), key=lambda f: f.qualname)
+
+    SOLVING_API = ('__init__', 'Solve', 'DoGlobalIteration', 'DoLocalRefinement', 'GetResults', 'AddListener',
+                   'RefreshListener')
+
+    def other_entry_points(self) -> List[FuncInfo]:
+        """Public methods of the Solver that are not part of the solving API the properties speak about
+        (state saving / restoring and the like)."""
+        solver = self.ix.cls('Solver')
+        return [f for n, f in sorted(solver.methods.items())
+                if f.kind == 'function' and not n.startswith('_') and n not in self.SOLVING_API]
+
+    def restore_only(self) -> Set[str]:
+        """Functions reachable from the other entry points but from no operation of the solving API."""
+        def build():
+            solver = self.ix.cls('Solver')
+            api = [f for n, f in solver.methods.items() if n in self.SOLVING_API]
+            api_reach = self.pta.reachable(api, stop=None)
+            # listeners are called from the API as well
+            other = self.other_entry_points()
+            oreach = self.pta.reachable(other, stop=None) if other else set()
+            return {q for q in oreach if q not in api_reach}
+        return self.memo('restore_only', build)
+
+    def _on_search_path(self, fs: List[FuncInfo]) -> List[FuncInfo]:
+        """Roles of the search are played on the search path (reachable from the iteration driver); routines that
+        only a state-restoring entry point (LoadProgress ...) reaches are not candidates - unless nothing else is."""
+        on = [f for f in fs if self.fq(f) in self.global_reach]
+        return on or fs
 
     @staticmethod
     def _is_private(f: FuncInfo) -> bool:
